@@ -190,6 +190,28 @@ def handleC03 (cmd : String) (args : List Sexp) : Option Sexp :=
               Sexp.list ((coords w.leafShape).map (fun c => match w.written c with
                 | none => ofInt (-1)
                 | some vc => ofNat (ravel e.shape vc)))])))
+  -- inner = td._get_sub_tensordict(i1)._get_sub_tensordict(i2); inner[i3] = value: per root leaf the value offset written at every position
+  | "c03.subsub", [bs, .list (.atom "leaves" :: ls), i1, i2, i3, v] => do
+      let td : Td.TD := { bs := (← shape? bs), names := none, leaves := (← ls.mapM shape?), nested := [] }
+      let i1 ← pyIndex? i1; let i2 ← pyIndex? i2; let i3 ← pyIndex? i3; let v ← shape? v
+      pure (match Td.subsubSet td i1 i2 i3 v with
+        | .error e => errToSexp e
+        | .ok ws => tagged "ok" ((td.leaves.zip ws).map (fun (feat, w) =>
+            Sexp.list ((coords (td.bs ++ feat)).map (fun c => match w c with
+              | none => ofInt (-1)
+              | some vc => ofNat (ravel v vc))))))
+  -- inner.get(key) for every leaf
+  | "c03.subsubget", [bs, .list (.atom "leaves" :: ls), i1, i2] => do
+      let td : Td.TD := { bs := (← shape? bs), names := none, leaves := (← ls.mapM shape?), nested := [] }
+      let i1 ← pyIndex? i1; let i2 ← pyIndex? i2
+      pure (match (do
+          let o ← Td.subInit td i1
+          let i ← Td.subInit { td with bs := o.bs } i2
+          let rs ← (List.range td.leaves.length).mapM (Td.subsubGet td o i)
+          pure (i.bs, rs) : Except Err (Shape × List TorchSpec.IndexResult)) with
+        | .error e => errToSexp e
+        | .ok (ibs, rs) => tagged "ok" [tagged "bs" (ibs.map ofNat),
+            tagged "leaves" ((td.leaves.zip rs).map (fun (feat, r) => leafToSexp (td.bs ++ feat) r))])
   | "c03.torchset", [dims, idx, v] => do
       let dims ← shape? dims; let idx ← pyIndex? idx; let v ← shape? v
       pure (match TorchSpec.setIndex dims idx.items v with
